@@ -28,7 +28,7 @@ def main (args : List String) : IO Unit :=
   | ["place"] => runLoop () (fun st toks => match toks with
       | cmd :: a => (st, c14 cmd a)
       | _ => (st, "bad-op"))
-  | ["stats"] => runLoop () (fun st toks => (st, statsCmd toks))
+  | ["stats"] => runLoop false statsStep
   | ["mqueue"] => runLoop (RootSim.MQueue.init 0) mqueueStep
   | ["msgauto"] => runLoop TraceSt.none msgautoStep
   | ["barrier"] => runLoop ({} : BarSt) barrierStep
